@@ -1,6 +1,6 @@
 """C13 — Applying calibration: composition, invalid-gain handling and invertibility (correspondence + search).
 
-Three streams (v4 and invert also reopen the same store with preselect=... and compare with the fully opened data set), all driven by explicit JSON-able configurations (a replay file carries the whole configuration):
+Four streams (v4 and invert also reopen the same store with preselect=... and compare with the fully opened data set), all driven by explicit JSON-able configurations (a replay file carries the whole configuration):
 
 direct   katdal.applycal.calc_correction on a SensorCache holding generated `Calibration/Corrections/...` sensors
          (ndarray and CategoricalData forms), then the three numba kernels through dask elemwise exactly as
@@ -15,6 +15,10 @@ v4       full data sets (fixtures.v4.build_v4 + a 'cal' stream in telstate, B op
          vis / weights / raw flags under random selections and second-stage indexing are compared for equality.
          The same store reopened with preselect={'channels','dumps'} must equal the fully opened data set on the
          loaded dumps/channels and the spec on the loaded subset.
+sol      cal SOLUTIONS (zero / NaN / inf / numbers, varying in time, per target) through katdal's own
+         calc_gain_correction / calc_bandpass_correction / calc_delay_correction, the resulting correction sensors
+         through calc_correction and the kernels; compared with the spec on the corrections the solutions call for
+         (harness derivation cross-checked against Model/ApplycalSol.v, wire 131).
 invert   v4 data sets whose stored visibilities were corrupted by known complex per-input gains, delays and
          bandpasses, same solutions at every dump: corrected vis within REL_TOL of the clean ones (the one clause of
          the property that says "to within single-precision rounding").
@@ -31,24 +35,42 @@ RULE = ('direct: 1-4 cal products from 1-2 streams (own channel counts and centr
         'corrections that are Gaussian dyadics (unit-group x 2^e with free weights, or small Gaussian integers/halves '
         'with weights matched so that the float32 division is exact), NaN and zero at random positions, ndarray or '
         'categorical sensors, shuffled/duplicated corrprod pairs, random chunkings on all three axes, a second '
-        'chunking and a random loaded subset; v4: real positive power-of-two G (with or without channel axis), '
+        'chunking and a random loaded subset; in half of the cases the REQUEST also names products without correction '
+        'sensors (for all inputs or for some of the inputs in use) before / between / after the present ones and '
+        'repeated names, lenient (skip_missing_products) or strict; '
+        'sol: solutions (zero / NaN / inf / powers of two; constant, varying in time, a zero at one solution time, '
+        'dead inputs and channels, holes, all invalid, none at all; with or without channel axis; 1-3 targets) '
+        'through calc_gain_correction / calc_bandpass_correction / calc_delay_correction, calc_correction and the '
+        'kernels; v4: real positive power-of-two G / GPHASE / GAMP_PHASE (with or without channel axis, 1-3 targets), '
         'B (one value per input and solution time, NaN band edges / inputs / single solutions; single or split '
         'into 2-3 parts whose solution times are random subsets of a common set, parts absent altogether), '
-        'K zero/NaN solutions through katdal.open-equivalent data sets, shuffled bls_ordering, random selections; '
-        'the corrections every input must get are derived from the SOLUTIONS by the harness and the spec is '
-        'evaluated on those; every third case has a multi-part B with a part lacking a solution another part has, '
-        'every third is reopened with preselect on channels (+dumps), 60% of the rest with preselect (channels '
-        '[a,b), dumps [a,b) or both), and compared with the fully opened one on the same dumps/channels; invert: complex '
-        'gains/delays/bandpasses, 75% also reopened with preselect.  A case is one configuration; non-trivial when '
-        'at least one factor is finite and not 1 and (direct, v4) at least one factor is NaN or two products '
-        'are combined; distinct by the whole configuration')
-ASSUMPTIONS = ['correction values are finite or NaN (infinite corrections are outside the model: inf*0 is NaN in IEEE)',
+        'K zero/NaN/inf solutions, zero solutions (dead input, dead cal channel, a zero at one solution time; forced '
+        'in every sixth case), infinite solutions, an optional l2 self-cal stream with its own channelisation / '
+        'antenna order (30%; possibly lacking an antenna), through katdal.open-equivalent data sets, shuffled '
+        'bls_ordering, random selections; the request is strict, lenient (all / default / a stream / bare types with '
+        'types lacking solutions before present ones / mixed / repeated; forced in two of six cases) or strict naming '
+        'a missing product; the corrections every input must get are derived from the SOLUTIONS by the harness and '
+        'the spec is evaluated on those over the products the REQUEST calls for; every sixth case has a multi-part B '
+        'with a part lacking a solution another part has, every sixth is reopened with preselect on channels '
+        '(+dumps), 60% of the rest with preselect (channels [a,b), dumps [a,b) or both), and compared with the fully '
+        'opened one on the same dumps/channels; invert: complex gains/delays/bandpasses, 75% also reopened with '
+        'preselect.  A case is one configuration; non-trivial when at least one factor is finite and not 1 and '
+        '(direct, v4) at least one factor is NaN or two products are combined; distinct by the whole configuration')
+ASSUMPTIONS = ['correction values are finite or NaN (infinite corrections are outside the model: inf*0 is NaN in IEEE); '
+               'infinite SOLUTIONS are inside (invalid)',
                'generated gains keep every complex64 product, |factor|^2 and the weight division exact in float32 '
                '(checked by the harness against a float64 evaluation); rounding is not verified',
-               'v4 stream: the model (tie) runs on the correction sensors read back from the data set; the spec '
-               '(property) runs on corrections derived by the harness from the solutions put into telstate, which is '
-               'exact only for the generated class (G constant in time per input, B constant over the band per input '
-               'and solution time, K delays 0/NaN); general interpolation in time/frequency is C14',
+               'v4 / sol streams: the spec (property) runs on corrections derived by the harness from the solutions '
+               '(exact part of the calculators: at a solution, beyond the ends, between equal solutions, NaN / inf / '
+               'zero structure; cross-checked against Model/ApplycalSol.v on every case); where the solutions only '
+               'determine "a non-zero number" (strictly between two different solutions) katdal\'s value must be a '
+               'finite non-zero number and the values of vis / weights it touches are not compared (flags are); '
+               'general interpolation in time/frequency is C14',
+               'the target of every dump (per-target interpolation of the self-cal products) is read from the data '
+               'set opened without applycal (with the same preselect): katdal aligns target changes with scan starts',
+               'the expansion of a request into <stream>.<type> names is the documented one (C14 verifies '
+               '_normalise_cal_products); a product is available when its stream has solutions for it and a solution '
+               'index for every antenna',
                'a preselected data set is generated only when every K/B product has a solution before the end of the '
                'loaded dumps (otherwise katdal has no sensor value and raises)',
                'invert stream tolerance: |corrected - clean| <= 2^-16 * (1 + number of products) * max(|clean|, 1) per component']
@@ -126,6 +148,177 @@ def arr_q_from_model(a, shape):
         exact[i] = d & (d - 1) == 0 and (n == 0 or (abs(n) >> (abs(n) & -abs(n)).bit_length() - 1).bit_length() <= 24)
     return out, exact
 
+
+# --------------------------------------------------------------------------- SOLUTIONS -> corrections (harness mirror)
+# A solution leaf is None (NaN: missing / flagged), 'inf' (an infinite value: invalid) or [re, im] (a number, zero
+# included); K delays are None / 'inf' / a float.  This is the harness-side rendering of the exact part of
+# calc_gain_correction / calc_bandpass_correction / calc_delay_correction (cross-checked against the Coq model
+# Model/ApplycalSol.v, wire 131, for every case): complex_interp is exact at a node, beyond the ends and between
+# equal values; strictly between two different values the result is only known to be a non-zero number (INEXACT).
+INEXACT = 'x'
+GAIN_TYPES = ('G', 'GPHASE', 'GAMP_PHASE')
+NANC = complex(np.nan, np.nan)
+
+
+def leaf_c(v):
+    if v is None:
+        return NANC
+    if isinstance(v, str):
+        return complex(np.inf, 0.0)
+    return complex(v[0], v[1])
+
+
+def leaf_wire(v):
+    if v is None:
+        return []
+    if isinstance(v, str):
+        return [0]
+    return complex_to_wire(np.complex64(complex(v[0], v[1])))
+
+
+def _fin(z):
+    return np.isfinite(z.real) and np.isfinite(z.imag)
+
+
+def py_cinterp(nodes, x, edges_invalid):
+    """nodes: [(x, finite complex)] with increasing x -> complex | NaN | INEXACT."""
+    if not nodes:
+        return NANC
+    if x < nodes[0][0]:
+        return NANC if edges_invalid else nodes[0][1]
+    for (x0, v0), (x1, v1) in zip(nodes, nodes[1:]):
+        if x < x1:
+            return v0 if (x == x0 or v0 == v1) else INEXACT
+    return NANC if (edges_invalid and x > nodes[-1][0]) else nodes[-1][1]
+
+
+def py_recip(v):
+    if isinstance(v, str):
+        return INEXACT
+    if np.isnan(v) or v == 0:
+        return NANC
+    return complex(np.reciprocal(np.complex64(v)))
+
+
+def py_gain(evs, T, targets=None):
+    """evs: [(relative dump, [leaf per channel])] as seen by the data set, in time order -> [T][n_chans] entries."""
+    nch = len(evs[0][1]) if evs else 1
+    out = []
+    for d in range(T):
+        row = []
+        for c in range(nch):
+            nodes = [(e, leaf_c(v[c])) for e, v in evs
+                     if _fin(leaf_c(v[c])) and (targets is None or targets[e] == targets[d])]
+            row.append(py_recip(py_cinterp(nodes, d, False)))
+        out.append(row)
+    return out
+
+
+def py_bandpass(cal_freqs, col, data_freqs):
+    nodes = [(float(f), leaf_c(v)) for f, v in zip(cal_freqs, col) if _fin(leaf_c(v))]
+    return [py_recip(py_cinterp(nodes, float(f), True)) for f in data_freqs]
+
+
+def py_delay(v, data_freqs):
+    if v is None or v == 0:
+        return [complex(1.0, 0.0)] * len(data_freqs)
+    if isinstance(v, str):
+        return [NANC] * len(data_freqs)
+    return [INEXACT] * len(data_freqs)
+
+
+def entries_to_arrays(entries):
+    """list of entries -> (complex64 values with 1 at INEXACT positions, INEXACT mask)."""
+    mask = np.array([isinstance(v, str) for v in entries], bool)
+    vals = np.array([1.0 if isinstance(v, str) else v for v in entries], np.complex64)
+    return vals, mask
+
+
+def wire_entries(entries):
+    """the same list as wire 131 prints it: [] NaN | [[n,d],[n,d]] exact | [1] a non-zero number."""
+    out = []
+    for v in entries:
+        if isinstance(v, str):
+            out.append([1])
+        elif np.isnan(v):
+            out.append([])
+        else:
+            out.append([q_wire(Fraction(float(v.real))), q_wire(Fraction(float(v.imag)))])
+    return out
+
+
+# --------------------------------------------------------------------------- which products a request selects
+# the documented expansion (katdal.open docstring / DataSet.applycal): 'all' = every cal stream, 'default' =
+# l1.K, l1.B, l1.G, l2.GPHASE, a stream = its five product types, a bare type = that type in every stream,
+# <stream>.<type> = itself; lenient (products without solutions are skipped) iff 'all' / 'default' / any bare name
+DOC_TYPES = ['K', 'B', 'G', 'GPHASE', 'GAMP_PHASE']
+DOC_DEFAULT = ['l1.K', 'l1.B', 'l1.G', 'l2.GPHASE']
+
+
+def expand_request(request, streams):
+    """-> (list of <stream>.<type>, lenient)"""
+    if isinstance(request, str):
+        if request == '':
+            items = []
+        elif request == 'all':
+            items = list(streams)
+        elif request == 'default':
+            items = list(DOC_DEFAULT)
+        else:
+            items = [x.strip() for x in request.split(',')]
+    else:
+        items = list(request)
+    lenient = request in ('all', 'default') or any('.' not in x for x in items)
+    out = []
+    for x in items:
+        if '.' in x:
+            out.append(x)
+        elif x in streams:
+            out += [x + '.' + t for t in DOC_TYPES]
+        elif x in DOC_TYPES:
+            out += [s + '.' + x for s in streams]
+        else:
+            raise ValueError(x)
+    return out, lenient
+
+
+def select_expected(names, lenient, available):
+    """the products that must be applied: the requested ones that have corrections for every input, once, in the
+    order of first mention; None = KeyError (strict request naming a product without solutions)."""
+    out = []
+    for n in names:
+        if n in available:
+            if n not in out:
+                out.append(n)
+        elif not lenient:
+            return None
+    return out
+
+
+def check_selection_model(ctx, case, names, lenient, usable, tag):
+    """Model/ApplycalSol.v on the same request (wire 131 op 4): -> (what the MODEL of the loop selects, or None when
+    it raises / no model; names).  The harness-side expectation is cross-checked against the model's SPEC
+    (spec_selected) - a tie of the harness derivation.  usable: {name: [has a sensor for input i]}"""
+    if not ctx.model_ok:
+        return False, None
+    ids = {}
+    for n in names:
+        ids.setdefault(n, len(ids) + 1)
+    back = {v: k for k, v in ids.items()}
+    mo = ctx.model([[131, [4, int(lenient), [[ids[n], [int(b) for b in usable[n]]] for n in names]]]])[0]
+    mine = select_expected(names, lenient, {n for n in names if all(usable[n])})
+    if mo == [-999]:
+        return False, None
+    if not mo:
+        if mine is not None and not lenient and all(all(usable[n]) for n in names):
+            ctx.disagree('route=%s;symptom=harness_selection_differs_from_model' % tag, case, mine, mo,
+                         'model raises on a strict request whose products are all usable', kind='tie')
+        return True, None
+    if mine is not None and mo[1] != [ids[n] for n in mine]:
+        ctx.disagree('route=%s;symptom=harness_selection_differs_from_model' % tag, case, mine,
+                     [back[i] for i in mo[1]], 'products to be selected: harness derivation differs from '
+                     'Model/ApplycalSol.v spec_selected (requested %s)' % names, kind='tie')
+    return True, [back[i] for i in mo[0]]
 
 # --------------------------------------------------------------------------- python rendering of the SPEC
 # (used to pick exact weights, as the fall-back when no model binary exists, and for the invert stream)
@@ -282,13 +475,43 @@ def gen_direct(rng, tier='quick', force=None):
     cfg['weights'] = wts
     cfg['subset'] = [sorted(rng.sample(range(T), rng.randint(1, T))), sorted(rng.sample(range(F), rng.randint(1, F))),
                      sorted(rng.sample(range(B), rng.randint(1, B)))]
+    # the REQUEST handed to calc_correction: the products above plus, in half of the cases, products WITHOUT
+    # correction sensors (for every input, or only for some) at random positions, and repeated names;
+    # lenient (skip_missing_products=True) or strict (a product lacking a sensor is a KeyError)
+    req = [dict(name=p['name'], has=[1] * ninp) for p in prods]
+    skip = int(rng.random() < 0.3)
+    if rng.random() < 0.5:
+        used = {p['name'] for p in prods}
+        unused = [(s, t) for s in streams for t in TYPES if s + '.' + t not in used]
+        for (s_, t_) in rng.sample(unused, min(len(unused), rng.randint(1, 3))):
+            has = [0] * ninp if rng.random() < 0.5 else [int(rng.random() < 0.6) for _ in range(ninp)]
+            used = sorted({i for cp in cps for i in cp})
+            if all(has[i] for i in used):
+                has[rng.choice(used)] = 0          # only the inputs occurring in the corrprods are looked up
+            req.insert(rng.randint(0, len(req)), dict(name=s_ + '.' + t_, has=has))
+        if rng.random() < 0.3:
+            req.insert(rng.randint(0, len(req)), dict(rng.choice(req)))
+        skip = int(rng.random() < 0.85)
+    exp = select_expected([r['name'] for r in req], True, {r['name'] for r in req if all(r['has'])})
+    prods.sort(key=lambda p: exp.index(p['name']))
+    cfg['request'] = req
+    cfg['skip'] = skip
     return cfg
 
 
+def direct_request(cfg):
+    """-> (requested names, lenient, {name: [has a sensor for input i]})"""
+    req = cfg.get('request') or [dict(name=p['name'], has=[1] * len(cfg['labels'])) for p in cfg['prods']]
+    # calc_correction only looks up the inputs that occur in the corrprods
+    used = sorted({i for cp in cfg['cps'] for i in cp})
+    return ([r['name'] for r in req], bool(cfg.get('skip', 0)),
+            {r['name']: [r['has'][i] for i in used] for r in req})
+
+
 # --------------------------------------------------------------------------- model call
-def model_case(cfg):
+def model_case(cfg, only=None):
     prods = [[p['own'], p['kb'], p['cal_freqs'], [[[c_wire(z) for z in g] for g in per] for per in p['corr']]]
-             for p in cfg['prods']]
+             for p in cfg['prods'] if only is None or p['name'] in only]
     return [13, [1, cfg['data_freqs'], prods, len(cfg['labels']), cfg['cps'], cfg['chunks'][0], cfg['chunks'][1],
                  [[[c_wire(z) for z in r] for r in t] for t in cfg['vis']],
                  cfg['weights'], cfg['flags']]]
@@ -322,7 +545,7 @@ def same_c(a, b):
     return (na & nb) | (~na & ~nb & (a == b))
 
 
-def run_direct_impl(cfg):
+def run_direct_impl(cfg, fill=None):
     import dask.array as da
     from katdal.applycal import (apply_flags_correction, apply_vis_correction, apply_weights_correction,
                                  calc_correction)
@@ -330,7 +553,18 @@ def run_direct_impl(cfg):
     from katdal.sensordata import SensorCache
     T, F, B = cfg['T'], len(cfg['data_freqs']), len(cfg['cps'])
     cache = SensorCache({}, 100.0 + 2.0 * np.arange(T), 2.0)
-    for p in cfg['prods']:
+    names, skip, usable = direct_request(cfg)
+    has_all = {r['name']: r['has'] for r in cfg.get('request') or []}
+    for n in names:
+        # a product that is not applicable: correction sensors exist for some of the inputs only (or for none)
+        if not all(usable[n]):
+            for lab, h in zip(cfg['labels'], has_all[n]):
+                if h:
+                    cache['Calibration/Corrections/%s/%s/%s' % (tuple(n.split('.')) + (lab,))] = \
+                        np.ones((T, 1), np.complex64)
+    if fill is not None:
+        fill(cache)                    # sol route: the correction sensors come from katdal's own calculators
+    for p in ([] if fill is not None else cfg['prods']):
         s, t = p['name'].split('.')
         for lab, per in zip(cfg['labels'], p['corr']):
             arr = np.array([[c_to_py(z) for z in g] for g in per], np.complex64)       # (T, cn)
@@ -345,20 +579,25 @@ def run_direct_impl(cfg):
     corrprods = [(cfg['labels'][a], cfg['labels'][b]) for a, b in cfg['cps']]
     data_freqs = np.array([float(Fraction(*f)) for f in cfg['data_freqs']])
     cal_freqs = {p['stream']: np.array([float(Fraction(*f)) for f in p['cal_freqs']]) for p in cfg['prods']}
+    for n in names:
+        cal_freqs.setdefault(n.split('.')[0], data_freqs)
     vis = np.array([[[c_to_py(z) for z in r] for r in t] for t in cfg['vis']], np.complex64)
     wts = np.array([[[w[0] / 2.0 ** w[1] for w in r] for r in t] for t in cfg['weights']], np.float32)
     fls = np.array(cfg['flags'], np.uint8)
     out = {}
     for key, chunks in (('main', cfg['chunks']), ('second', cfg['chunks2'] + [[B]])):
         chunks = tuple(tuple(c) for c in chunks)
-        final, corr = calc_correction(chunks, cache, corrprods, [p['name'] for p in cfg['prods']], data_freqs,
-                                      cal_freqs)
-        assert final == [p['name'] for p in cfg['prods']], final
+        final, corr = calc_correction(chunks, cache, corrprods, list(names), data_freqs, cal_freqs,
+                                      **(dict(skip_missing_products=True) if skip else {}))
+        out['final'] = list(final)
         res = {}
         for nm, kern, arr in (('vis', apply_vis_correction, vis), ('weights', apply_weights_correction, wts),
                               ('flags', apply_flags_correction, fls)):
             darr = da.from_array(arr, chunks=chunks)
-            res[nm] = da.core.elemwise(kern, darr, corr, dtype=arr.dtype)
+            # no product applicable: VisibilityDataV4 serves the stored data
+            res[nm] = da.core.elemwise(kern, darr, corr, dtype=arr.dtype) if corr is not None else darr
+        if corr is None:
+            corr = da.ones((T, F, B), chunks=chunks, dtype=np.complex64)
         if key == 'main':
             out['corr'] = corr.compute(scheduler='synchronous')
             for nm in res:
@@ -431,16 +670,44 @@ def nontrivial(cfg, m):
 
 def run_direct(ctx, cfg, mo):
     m = model_arrays(cfg, mo) if mo is not None else fallback_arrays(cfg)
+    names, skip, usable = direct_request(cfg)
+    want = select_expected(names, skip, {n for n in names if all(usable[n])})
+    has_model, msel = check_selection_model(ctx, cfg, names, skip, usable, 'direct')
+    shape = 'lenient=%d;missing=%s' % (skip, 'none' if all(all(usable[n]) for n in names) else
+                                       ('last' if all(all(usable[n]) for n in names[:len(want or names)]) else 'before_present'))
     try:
         impl = run_direct_impl(cfg)
     except Exception as e:
+        if want is None and isinstance(e, KeyError):
+            ctx.traces_validated += 1
+            ctx.count('route=direct;strict_request_missing_product=KeyError')
+            return
         if m['wf']:
-            ctx.disagree('route=direct;symptom=raises;exc=%s' % type(e).__name__, cfg, repr(e)[:300], 'a result',
-                         'calc_correction / kernels raised on a well-formed configuration')
+            ctx.disagree('route=direct;symptom=raises;exc=%s;%s' % (type(e).__name__, shape), cfg, repr(e)[:300],
+                         'a result', 'calc_correction / kernels raised on a well-formed configuration')
         return
     if not m['wf']:
         return
-    compare(ctx, cfg, impl, m, 'direct')
+    if want is None:
+        ctx.disagree('route=direct;obs=products;symptom=strict_request_did_not_raise', cfg, impl['final'], 'KeyError',
+                     'calc_correction(skip_missing_products=False) returned although a requested product lacks a '
+                     'correction sensor')
+        return
+    if impl['final'] != want:
+        ctx.disagree('route=direct;obs=products;vs=spec;symptom=%s;%s'
+                     % ('products_dropped' if set(impl['final']) < set(want) else 'wrong_products', shape), cfg,
+                     impl['final'], want, 'calc_correction applies %s, the request %s with usable products %s calls '
+                     'for %s' % (impl['final'], names, sorted(n for n in names if all(usable[n])), want))
+    if has_model and msel is not None and impl['final'] != msel:
+        ctx.disagree('route=direct;obs=products;vs=model;symptom=wrong_products;%s' % shape, cfg, impl['final'], msel,
+                     'products applied differ from the model of the loop', kind='tie')
+    if has_model and msel is not None and msel != want and mo is not None:
+        # the (faithful) model of the loop selects other products than the spec: tie on those, property on the spec's
+        mt = model_arrays(cfg, ctx.model([model_case(cfg, only=set(msel))])[0])
+        compare(ctx, cfg, impl, mt, 'direct', sides=('model',))
+        compare(ctx, cfg, impl, m, 'direct', sides=('spec',))
+    else:
+        compare(ctx, cfg, impl, m, 'direct')
     # chunk independence / loaded subset on the implementation itself
     ts, cs, bs = cfg['subset']
     ix = np.ix_(ts, cs, bs)
@@ -457,10 +724,211 @@ def run_direct(ctx, cfg, mo):
                               chunks=cfg['chunks'], nan_factors=int(np.isnan(m['corr']).sum())))
     ctx.count('route=direct')
     ctx.count('products=%d' % len(cfg['prods']))
+    ctx.count('direct_request:' + shape)
     for k in m.get('maps', []):
         ctx.count('map=%s' % {0: 'broadcast', 1: 'direct', 2: 'nearest'}[k])
     ctx.count('nan_factor=%s' % bool(np.isnan(m['corr']).any()))
     ctx.count('zero_factor=%s' % bool((m['corr'] == 0).any()))
+
+
+# --------------------------------------------------------------------------- sol route: calculators -> kernels
+def gen_sol(rng, tier='quick'):
+    """Solutions (zero / NaN / inf / numbers, varying in time, with or without a channel axis, per target) through
+    katdal's own calc_gain_correction / calc_bandpass_correction / calc_delay_correction, the resulting correction
+    sensors through calc_correction and the three kernels."""
+    T = rng.randint(2, 6)
+    F = rng.randint(1, 6)
+    n_ant = rng.randint(1, 2)
+    labels = ['m%03d%s' % (a, p) for a in range(n_ant) for p in 'hv']
+    rng.shuffle(labels)
+    ninp = len(labels)
+    B = rng.randint(1, 6)
+    cps = [[rng.randrange(ninp), rng.randrange(ninp)] for _ in range(B)]
+    data, df = gen_freqs(rng, F)
+    data.sort()
+    mode = rng.choice(['same', 'same', 'shifted', 'other'])
+    if mode == 'same':
+        cal = list(data)
+    elif mode == 'shifted':
+        sh = rng.choice([-2, -1, 1, 2]) * df
+        cal = [f + sh for f in data]
+    else:
+        cal = sorted(gen_cal_freqs(rng, data, df, 'other'))
+        if len(set(cal)) != len(cal):
+            cal = list(data)                   # np.interp needs strictly increasing abscissae
+    targets = None
+    if rng.random() < 0.6:
+        targets = [0]
+        for _ in range(T - 1):
+            targets.append(targets[-1] if rng.random() < 0.6 else rng.choice([k for k in range(3) if k != targets[-1]]))
+    types = rng.sample(TYPES, rng.randint(1, 3))
+    prods = []
+
+    def leaf(e):
+        return [2.0 ** e, 0.0]
+
+    def bad():
+        return 'inf' if rng.random() < 0.3 else None
+    for t in types:
+        hold = t in ('K', 'B')
+        n_ev = rng.randint(1, min(3, T))
+        evs = sorted(rng.sample(range(T), n_ev))
+        if hold:
+            evs[0] = 0
+        elif rng.random() < 0.08:
+            evs = []           # a gain product without any solution inside the data: only the placeholder
+        nch = 1 if (t not in GAIN_TYPES and t != 'B') else (len(cal) if (t == 'B' or rng.random() < 0.3) else 1)
+        per_input = []
+        for _ in range(ninp):
+            e0 = rng.randint(-2, 2)
+            style = rng.choice(['const', 'const', 'dead', 'varying', 'zero_once', 'zero_once', 'all_invalid', 'holes'])
+            zero_at = rng.choice(evs) if evs else None
+            dead_ch = rng.randrange(nch) if rng.random() < 0.3 else None
+            vals = []
+            for d in evs:
+                if t == 'K':
+                    vals.append(bad() if rng.random() < 0.25 else 0.0)
+                    continue
+                vec = []
+                for c in range(nch):
+                    if style == 'all_invalid' or (style == 'holes' and rng.random() < 0.4):
+                        vec.append(bad())
+                    elif style == 'dead' or (style == 'zero_once' and d == zero_at) or c == dead_ch:
+                        vec.append([0.0, 0.0])
+                    elif style == 'varying':
+                        vec.append(leaf(e0 + rng.randint(-1, 1)))
+                    else:
+                        vec.append(leaf(e0))
+                if t == 'B' and nch > 2 and rng.random() < 0.5:
+                    vec[0] = bad()                                  # band edges
+                    if rng.random() < 0.5:
+                        vec[-1] = bad()
+                vals.append(vec)
+            per_input.append(vals)
+        prods.append(dict(name='l1.' + t, type=t, dumps=evs, values=per_input))
+    vis = [[[[rng.randint(-64, 64), rng.randint(-64, 64), rng.choice([0, 1])] if rng.random() > 0.02 else None
+             for _ in range(B)] for _ in range(F)] for _ in range(T)]
+    flags = [[[rng.randrange(256) for _ in range(B)] for _ in range(F)] for _ in range(T)]
+    wts = [[[[rng.randint(1, 64), rng.choice([0, 1, 2])] for _ in range(B)] for _ in range(F)] for _ in range(T)]
+    return dict(route='sol', T=T, labels=labels, cps=cps, data_freqs=[q_wire(f) for f in data],
+                cal_freqs=[q_wire(f) for f in cal], targets=targets, products=prods,
+                chunks=[compositions(rng, T), compositions(rng, F), [B]], chunks2=[compositions(rng, T), compositions(rng, F)],
+                vis=vis, flags=flags, weights=wts,
+                subset=[sorted(rng.sample(range(T), rng.randint(1, T))), sorted(rng.sample(range(F), rng.randint(1, F))),
+                        sorted(rng.sample(range(B), rng.randint(1, B)))])
+
+
+def _sol_fill(cfg, got):
+    """-> fill(cache): run katdal's correction calculators on the solution sensors and register the results."""
+    from katdal import applycal
+    from katdal.categorical import CategoricalData, ComparableArrayWrapper
+    T = cfg['T']
+    data_freqs = np.array([float(Fraction(*f)) for f in cfg['data_freqs']])
+    cal_freqs = np.array([float(Fraction(*f)) for f in cfg['cal_freqs']])
+    tsens = None
+    if cfg['targets'] is not None:
+        tg = cfg['targets']
+        ev = [0] + [k for k in range(1, T) if tg[k] != tg[k - 1]]
+        tsens = CategoricalData([tg[k] for k in ev], ev + [T])
+
+    def fill(cache):
+        for p in cfg['products']:
+            t = p['type']
+            got[t] = []
+            for lab, vals in zip(cfg['labels'], p['values']):
+                values, events = [], list(p['dumps'])
+                for v in vals:
+                    if t == 'K':
+                        arr = np.array([[np.nan if v is None else (np.inf if isinstance(v, str) else v)]], np.float64)
+                    else:
+                        col = np.array([leaf_c(x) for x in v], np.complex64)
+                        arr = col.reshape(len(v), 1, 1) if (t == 'B' or len(v) > 1) else col.reshape(1, 1)
+                    values.append(ComparableArrayWrapper(arr))
+                if not events or events[0] != 0:
+                    # what the sensor cache serves before the first gain solution
+                    values.insert(0, applycal.INVALID_GAIN)
+                    events.insert(0, 0)
+                sensor = CategoricalData(values, events + [T])
+                if t == 'K':
+                    corr = applycal.calc_delay_correction(sensor, (0, 0), data_freqs)
+                elif t == 'B':
+                    corr = applycal.calc_bandpass_correction(sensor, (0, 0), data_freqs, cal_freqs)
+                elif t == 'G':
+                    corr = applycal.calc_gain_correction(sensor, (0, 0))
+                else:
+                    corr = applycal.calc_gain_correction(sensor, (0, 0), tsens)
+                cache['Calibration/Corrections/l1/%s/%s' % (t, lab)] = corr
+                got[t].append([np.atleast_1d(np.asarray(corr[d])).astype(np.complex64) for d in range(T)])
+    return fill
+
+
+def run_sol(ctx, cfg):
+    T, F, B = cfg['T'], len(cfg['data_freqs']), len(cfg['cps'])
+    data_freqs = np.array([float(Fraction(*f)) for f in cfg['data_freqs']])
+    cal_freqs = np.array([float(Fraction(*f)) for f in cfg['cal_freqs']])
+    names = [p['name'] for p in cfg['products']]
+    # what the solutions call for
+    want, wmask, cases, mine = {}, {}, [], []
+    for p in cfg['products']:
+        per_input, per_mask = [], []
+        for vals in p['values']:
+            rows = derive_input(p['type'], list(zip(p['dumps'], vals)), T, data_freqs, cal_freqs, cfg['targets'],
+                                cases, mine)
+            arrs = [entries_to_arrays(r) for r in rows]
+            per_input.append([a[0] for a in arrs])
+            per_mask.append([a[1] for a in arrs])
+        want[p['type']], wmask[p['type']] = per_input, per_mask
+    if ctx.model_ok:
+        for k, mo in enumerate(ctx.model(cases)):
+            if mo != mine[k]:
+                ctx.disagree('route=sol;symptom=harness_corrections_differ_from_model', cfg, mine[k], mo,
+                             'corrections derived from the solutions: harness derivation differs from '
+                             'Model/ApplycalSol.v (wire 131 op %d)' % cases[k][1][0], kind='tie')
+                return
+    dcfg = dict(cfg, route='direct', prods=[dict(name=n, stream='l1', cal_freqs=cfg['cal_freqs']) for n in names])
+    got = {}
+    try:
+        impl = run_direct_impl(dcfg, fill=_sol_fill(cfg, got))
+    except Exception as e:
+        ctx.disagree('route=sol;symptom=raises;exc=%s' % type(e).__name__, cfg, repr(e)[:300], 'a result',
+                     'correction calculators / calc_correction / kernels raised')
+        return
+    kinds = set()
+    for p in cfg['products']:
+        t = p['type']
+        bad = _same_corrections(got[t], want[t], wmask[t])
+        if bad is not None:
+            ctx.disagree('route=sol;obs=corrections_from_solutions;type=%s;symptom=%s' % (t, bad[2]), cfg,
+                         dict(input=cfg['labels'][bad[0]], dump=bad[1], value=str(got[t][bad[0]][bad[1]])),
+                         dict(value=str(want[t][bad[0]][bad[1]])),
+                         'correction of %s for %s at dump %d differs from what the solutions call for'
+                         % (t, cfg['labels'][bad[0]], bad[1]))
+        for vals in p['values']:
+            for v in vals:
+                for x in (v if isinstance(v, list) and v and isinstance(v[0], (list, str, type(None))) else [v]):
+                    kinds.add('zero' if x in ([0.0, 0.0],) else 'inf' if isinstance(x, str) else
+                              'nan' if x is None else 'number')
+    base = dict(cfg, route='direct', prods=[])
+    scfg, ms = _spec_on(ctx, base, want, wmask, got, names, cal_freqs)
+    compare(ctx, cfg_with(cfg, scfg), impl, ms, 'sol', sides=('spec',), spec_name='spec_from_solutions', tag=';sol')
+    ts, cs, bs = cfg['subset']
+    ix = np.ix_(ts, cs, bs)
+    for nm in ('vis', 'weights', 'flags'):
+        a, b = impl['sub_' + nm], impl[nm][ix]
+        eq = same_c(a, b) if nm == 'vis' else a == b
+        if a.shape != b.shape or not np.all(eq):
+            ctx.disagree('route=sol;obs=%s;symptom=chunking_or_subset_dependent' % nm, cfg, str(a.tolist())[:200],
+                         str(b.tolist())[:200], 'second chunking + loaded subset differs from the full result')
+    ctx.traces_validated += 1
+    ctx.note_case(cfg_key(cfg), nontrivial=bool(np.isnan(ms['corr']).any() and (~np.isnan(ms['corr'])).any()),
+                  sample=dict(route='sol', T=T, F=F, products=names, targets=cfg['targets'],
+                              nan_factors=int(np.isnan(ms['corr']).sum()), inexact=ms.get('tainted', 0)))
+    ctx.count('route=sol')
+    for k in sorted(kinds):
+        ctx.count('sol_solution_kind=' + k)
+    ctx.count('sol_nan_factor=%s' % bool(np.isnan(ms['corr']).any()))
+    ctx.count('sol_inexact_factor=%s' % bool(ms.get('tainted')))
+    ctx.count('sol_targets=%s' % ('none' if cfg['targets'] is None else len(set(cfg['targets']))))
 
 
 def cfg_key(cfg):
@@ -474,18 +942,106 @@ def _pow2(e):
     return [2.0 ** e, 0.0]
 
 
+def gen_request(rng, avail, streams, force=None):
+    """how the user asks for calibration: strict (fully qualified names of products that exist), lenient ('all',
+    'default', a stream, bare product types - products without solutions listed before / between / after the
+    present ones, repeated names, qualified names mixed in), or strict naming a product without solutions.
+    avail: the <stream>.<type> names that have solutions (in a fixed order)."""
+    missing = [s_ + '.' + t for s_ in streams for t in DOC_TYPES if s_ + '.' + t not in avail]
+    kind = force or rng.choice(['strict'] * 6 + ['group'] * 3 + ['types'] * 7 + ['mixed'] * 2 + ['strict_missing'])
+    if force is None and rng.random() < 0.04:
+        return rng.choice(['', []]), 'none'                 # no calibration asked for: the stored data
+    if kind == 'strict_missing' and not missing:
+        kind = 'types'
+    if kind in ('strict', 'mixed') and not avail:
+        kind = 'types'
+    if kind == 'strict':
+        req = list(avail)
+        rng.shuffle(req)
+    elif kind == 'group':
+        return rng.choice(['all', 'default'] + list(streams)), kind
+    elif kind == 'types':
+        req = rng.sample(DOC_TYPES, rng.randint(1, 5))
+        mt = sorted({n.split('.')[1] for n in missing})
+        at = sorted({n.split('.')[1] for n in avail})
+        if mt and at and rng.random() < 0.6:
+            # a type without solutions (in some stream) listed BEFORE one that has them
+            m, a = rng.choice(mt), rng.choice(at)
+            if m != a:
+                req = [x for x in req if x not in (m, a)]
+                k = rng.randint(0, len(req))
+                req.insert(k, m)
+                req.insert(rng.randint(k + 1, len(req)), a)
+        if rng.random() < 0.2:
+            req.insert(rng.randint(0, len(req)), rng.choice(req))
+    elif kind == 'mixed':
+        req = rng.sample(DOC_TYPES, rng.randint(1, 3)) + rng.sample(avail, rng.randint(1, len(avail)))
+        if rng.random() < 0.3:
+            req.append(rng.choice(list(streams)))
+        if rng.random() < 0.2:
+            req.append('l1.X')                               # a qualified name of an unknown type: no solutions
+        rng.shuffle(req)
+    else:
+        req = list(avail) + [rng.choice(missing)]
+        rng.shuffle(req)
+    return (','.join(req) if rng.random() < 0.5 else req), kind
+
+
+def gen_l2(rng, T, F, ants, chan_w, cf, p_zero):
+    """A self-cal stream with its OWN channelisation (1 .. F+2 channels, own centre and bandwidth), antenna and
+    polarisation order: gain-type products only, constant in time per input, with NaN / inf / zero solutions."""
+    n_ant = len(ants)
+    n_cal = rng.choice([1, 2, 3, F, F + 1, F + 2])
+    antlist = list(ants)
+    rng.shuffle(antlist)
+    if n_ant > 2 and rng.random() < 0.12:
+        antlist = antlist[:-1]             # an antenna without self-cal solutions: no product of the stream is usable
+    products = {}
+    for t in rng.sample(['GPHASE', 'GPHASE', 'GAMP_PHASE', 'G'], rng.randint(1, 2)):
+        if t in products:
+            continue
+        exps = [[rng.randint(-2, 2) for _ in range(n_ant)] for _ in range(2)]
+        cexp = [rng.randint(-1, 1) for _ in range(n_cal)]
+        with_chans = n_cal > 1 and rng.random() < 0.6
+        pa = [(p, a) for p in range(2) for a in range(len(antlist))]
+        dead = rng.choice(pa) if rng.random() < p_zero * 0.5 else None
+        nan_in = rng.choice(pa) if rng.random() < 0.2 else None
+        events = []
+        for dump in sorted(rng.sample(range(-1, T), rng.randint(1, min(3, T + 1)))):
+            def val(p, a, k):
+                if (p, a) == nan_in or rng.random() < 0.05:
+                    return 'inf' if rng.random() < 0.3 else None
+                return [0.0, 0.0] if (p, a) == dead else _pow2(exps[p][a] + (cexp[k] if with_chans else 0))
+            if with_chans:
+                arr = [[[val(p, a, k) for a in range(len(antlist))] for p in range(2)] for k in range(n_cal)]
+            else:
+                arr = [[val(p, a, 0) for a in range(len(antlist))] for p in range(2)]
+            events.append([dump, arr])
+        products[t] = events
+    return dict(antlist=antlist, pol_ordering=rng.choice([['v', 'h'], ['h', 'v']]),
+                center_freq=cf + rng.choice([-1, 0, 0, 1]) * chan_w * rng.choice([1, 0.5]),
+                bandwidth=F * chan_w * rng.choice([1, 1, 2]), n_chans=n_cal, products=products)
+
+
 def gen_v4(rng, tier='quick', force=None):
-    """Exact stream: real positive power-of-two solutions (G constant in time per input; B constant over the band
-    per input and solution time; NaN events / inputs / band edges; K zero or NaN), so every correction is an exact
-    power of two, 1 or NaN and can be derived from the SOLUTIONS by the harness (expected_corrections).
-    B may be a multi-part ("split cal") product whose parts have solutions at different times; the data set may be
-    opened with preselect={'channels': ..., 'dumps': ...}."""
+    """Exact stream: real positive power-of-two solutions (gain types constant in time per input; B constant over
+    the band per input and solution time; NaN / infinite events / inputs / band edges; ZERO solutions: dead inputs,
+    dead channels, a zero at one solution time; K zero, NaN or infinite), so that every correction is an exact power
+    of two, 1 or NaN (or, at marked positions, only known to be a non-zero number) and can be derived from the
+    SOLUTIONS by the harness (expected_corrections).  B may be a multi-part ("split cal") product whose parts have
+    solutions at different times; the data set may be opened with preselect={'channels': ..., 'dumps': ...}; the
+    request may be lenient and name products without solutions anywhere in the list."""
     force = force or {}
     n_ant = rng.randint(2, 3)
     ants = ['m%03d' % a for a in range(n_ant)]
     types = rng.sample(['G', 'B', 'K'], rng.randint(1, 3))
+    for t in ('GPHASE', 'GAMP_PHASE'):
+        if rng.random() < 0.25:
+            types.append(t)
     if force.get('parts') and 'B' not in types:
         types.append('B')
+    if force.get('request') in ('types', 'group') and len(types) == 5:
+        types.remove(rng.choice(['B', 'K', 'GPHASE']))          # something must be missing
     n_parts = 1
     if 'B' in types and (force.get('parts') or rng.random() < 0.5):
         n_parts = rng.choice([2, 2, 3])
@@ -511,6 +1067,8 @@ def gen_v4(rng, tier='quick', force=None):
     products = {}
     parts = {}
     nan_input = (rng.randrange(2), rng.randrange(n_ant)) if rng.random() < 0.4 else None
+    # zero solutions (force 'zero': in every product that can carry one)
+    p_zero = 1.0 if force.get('zero') else rng.choice([0, 0, 0.5, 1.0])
     first_hold = []                       # first solution dump of every product held from its first solution on
     for t in types:
         exps = [[rng.randint(-3, 3) for _ in range(n_ant)] for _ in range(2)]
@@ -518,24 +1076,39 @@ def gen_v4(rng, tier='quick', force=None):
         g_with_chans = rng.random() < 0.4
         n_ev = rng.randint(2 if (t == 'B' and n_parts > 1) else 1, min(4 if t == 'B' else 3, T + 1))
         evs = sorted(rng.sample(range(-1, T), n_ev))
+        if t in GAIN_TYPES and rng.random() < 0.08:
+            evs = [T]          # the only solution comes after the last dump: the data set sees no solution at all
+        # a dead input (every solution exactly zero), a dead cal channel of one input, a zero at ONE solution time
+        inputs_pa = [(p, a) for p in range(2) for a in range(n_ant)]
+        dead_input = rng.choice(inputs_pa) if rng.random() < p_zero * 0.6 else None
+        dead_chan = (rng.choice(inputs_pa), rng.randrange(n_cal)) if rng.random() < p_zero * 0.6 else None
+        zero_once = (rng.choice(inputs_pa), rng.choice(evs)) if rng.random() < p_zero * 0.3 else None
+        if force.get('zero') and dead_input is None and dead_chan is None:
+            dead_input = rng.choice(inputs_pa)
         events = []
         for dump in evs:
+            def bad():
+                return 'inf' if rng.random() < 0.3 else None
             if t == 'K':
-                arr = [[(None if rng.random() < 0.2 else 0.0) for _ in range(n_ant)] for _ in range(2)]
-            elif t == 'G' and not g_with_chans:
-                arr = [[None if ((p, a) == nan_input or rng.random() < 0.1) else _pow2(exps[p][a])
+                arr = [[(bad() if rng.random() < 0.2 else 0.0) for _ in range(n_ant)] for _ in range(2)]
+            elif t in GAIN_TYPES and not g_with_chans:
+                arr = [[bad() if ((p, a) == nan_input or rng.random() < 0.1) else
+                        ([0.0, 0.0] if ((p, a) == dead_input or zero_once == ((p, a), dump)) else _pow2(exps[p][a]))
                         for a in range(n_ant)] for p in range(2)]
-            elif t == 'G':
-                arr = [[[None if (p, a) == nan_input else _pow2(exps[p][a] + cexp[k])
+            elif t in GAIN_TYPES:
+                arr = [[[bad() if (p, a) == nan_input else
+                         ([0.0, 0.0] if ((p, a) == dead_input or dead_chan == ((p, a), k)) else
+                          _pow2(exps[p][a] + cexp[k]))
                          for a in range(n_ant)] for p in range(2)] for k in range(n_cal)]
             else:
                 # B: one value per input and SOLUTION TIME over the whole band (every part), NaN at band edges,
-                # whole inputs, or one input at one solution time
+                # whole inputs, or one input at one solution time; zero for a dead input / dead channels
                 lo, hi = rng.randint(0, 1), n_cal - rng.randint(0, 1)
                 delta = rng.randint(-1, 1)
                 dead = {(p, a) for p in range(2) for a in range(n_ant) if rng.random() < 0.08}
-                arr = [[[None if ((p, a) == nan_input or (p, a) in dead or not lo <= k < hi)
-                         else _pow2(exps[p][a] + delta) for a in range(n_ant)] for p in range(2)] for k in range(n_cal)]
+                arr = [[[bad() if ((p, a) == nan_input or (p, a) in dead or not lo <= k < hi) else
+                         ([0.0, 0.0] if ((p, a) == dead_input or dead_chan == ((p, a), k)) else
+                          _pow2(exps[p][a] + delta)) for a in range(n_ant)] for p in range(2)] for k in range(n_cal)]
             events.append([dump, arr])
         if t == 'B' and n_parts > 1:
             per = n_cal // n_parts
@@ -562,14 +1135,28 @@ def gen_v4(rng, tier='quick', force=None):
             first_hold.append(min(e for keep in keeps for e in keep))
         else:
             products[t] = events
-            if t != 'G':
+            if t not in GAIN_TYPES:
                 first_hold.append(evs[0])
     cal = dict(antlist=antlist, pol_ordering=pols, center_freq=cf + shift * chan_w, bandwidth=cal_bw, n_chans=n_cal,
                products=products)
     if parts:
         cal['parts'] = parts
-    applycal = ['l1.' + t for t in types]
-    rng.shuffle(applycal)
+    out_streams = {'l1': cal}
+    if force.get('l2') or rng.random() < 0.3:
+        out_streams['l2'] = gen_l2(rng, T, F, ants, chan_w, cf, p_zero)
+    probe = dict(cal=cal, ants=ants, **({'cal2': out_streams['l2']} if 'l2' in out_streams else {}))
+    avail = sorted(available_products(probe), key=lambda nm: (nm.split('.')[0], DOC_TYPES.index(nm.split('.')[1])))
+    applycal, req_kind = gen_request(rng, avail, list(out_streams), force.get('request'))
+    # one to three targets (self-cal type gains are interpolated per target)
+    tg = [[0, 0]]
+    for d in sorted(rng.sample(range(1, T), rng.choice([0, 1, 1, 2]) if T > 2 else 0)):
+        tg.append([d, rng.choice([k for k in range(3) if k != tg[-1][1]])])
+    # every new target starts with a slew and a track (katdal aligns target changes with the scan starts)
+    acts = []
+    for k, (d, _) in enumerate(tg):
+        acts.append([d, 'slew'])
+        if d + 1 < (tg[k + 1][0] if k + 1 < len(tg) else T):
+            acts.append([d + 1, 'track'])
     sel = {}
     if rng.random() < 0.7:
         a = rng.randrange(T)
@@ -597,10 +1184,40 @@ def gen_v4(rng, tier='quick', force=None):
             b = rng.randint(a + 1, T)
             if all(e < b for e in first_hold):
                 pre['dumps'] = [a, b]
-    return dict(route='v4', T=T, F=F, ants=ants, chan_w=chan_w, cf=cf, cal=cal, applycal=applycal, select=sel,
+    return dict(route='v4', T=T, F=F, ants=ants, chan_w=chan_w, cf=cf, cal=cal,
+                **({'cal2': out_streams['l2']} if 'l2' in out_streams else {}),
+                applycal=applycal, request=req_kind, targets=tg, acts=acts, select=sel,
                 preselect=pre, seed=rng.randrange(10 ** 6), shuffle_bls=rng.random() < 0.5,
                 chunks=[compositions(rng, T), compositions(rng, F)],
                 index=[rng.choice([None, 1, 2]), rng.choice([None, 1, 2])])
+
+
+def streams_of(vcfg):
+    """{'l1': the cal stream} plus {'l2': the self-cal stream} when the data set has one."""
+    out = {'l1': vcfg['cal']}
+    if vcfg.get('cal2'):
+        out['l2'] = vcfg['cal2']
+    return out
+
+
+def available_products(vcfg):
+    """the <stream>.<type> products that have solutions in telstate AND a solution index for every antenna of the
+    data set (a stream whose antlist lacks an antenna has no correction for its inputs: none of its products
+    is usable)."""
+    out = set()
+    for stream, cal in streams_of(vcfg).items():
+        if not set(vcfg['ants']) <= set(cal['antlist']):
+            continue
+        for key in cal['products']:
+            t = key.rstrip('0123456789') if key.rstrip('0123456789') in cal.get('parts', {}) else key
+            out.add(stream + '.' + t)
+    return out
+
+
+def expected_products(vcfg):
+    """-> (expanded request, lenient, the products that must be applied | None for KeyError)"""
+    names, lenient = expand_request(vcfg['applycal'], list(streams_of(vcfg)))
+    return names, lenient, select_expected(names, lenient, available_products(vcfg))
 
 
 # --------------------------------------------------------------------------- corrections expected from the SOLUTIONS
@@ -645,66 +1262,88 @@ def stitched_events(cal, t):
     return [[e, [row for p in part for row in p.get(e, missing)]] for e in times]
 
 
-def expected_corrections(vcfg, inputs, data_freqs, dumps):
-    from fixtures import c13cal
-    cal = vcfg['cal']
-    n = dumps[1] - dumps[0]
-    F = len(data_freqs)
-    cal_freqs = c13cal.cal_channel_freqs(cal)
-    index = {ant + pol: (p_i, a_i) for p_i, pol in enumerate(cal['pol_ordering'])
-             for a_i, ant in enumerate(cal['antlist'])}
-    nan = np.complex64(complex(np.nan, np.nan))
+def derive_input(t, evs, n, data_freqs, cal_freqs, targets, cases, mine):
+    """The corrections ONE input must get from product type t over n dumps: -> [dump] -> list of entries.
+    evs: the solutions the data set sees, in time order, as (relative dump, payload): gain types [leaf per channel]
+    (interpolated in time, per target for the self-cal types), B [leaf per cal channel] and K a delay leaf (the
+    solution in force = the last one at or before the dump, the first one before that).
+    cases / mine: the same derivation as wire 131 calls and the harness's answer in wire form (cross-check)."""
+    fw = [q_wire(Fraction(float(f))) for f in data_freqs]
+    if t in GAIN_TYPES:
+        tg = None if (t == 'G' or targets is None) else list(targets)
+        rows = py_gain(evs, n, tg)
+        cases.append([131, [1, n, [] if tg is None else [int(x) + 1 for x in tg],
+                            [[q_wire(e), [leaf_wire(x) for x in v]] for e, v in evs]]])
+        mine.append([wire_entries(r) for r in rows])
+        return rows
+    cw = [q_wire(Fraction(float(f))) for f in cal_freqs]
+    rows, segs = [], {}
+    for d in range(n):
+        le = [k for k, (e, _) in enumerate(evs) if e <= d]
+        k = le[-1] if le else 0
+        if k not in segs:
+            v = evs[k][1]
+            if t == 'K':
+                segs[k] = py_delay(v, data_freqs)
+                cases.append([131, [3, leaf_wire(v if (v is None or isinstance(v, str)) else [v, 0.0]), fw]])
+            else:
+                segs[k] = py_bandpass(cal_freqs, v, data_freqs)
+                cases.append([131, [2, cw, fw, [leaf_wire(x) for x in v]]])
+            mine.append(wire_entries(segs[k]))
+        rows.append(segs[k])
+    return rows
 
-    def inv(v):
-        return nan if v is None else np.complex64(1.0 / v[0])
-    out = {}
-    for name in vcfg['applycal']:
-        t = name.split('.')[1]
-        kept = _kept_events(stitched_events(cal, t), dumps)
-        per_input = []
+
+def expected_corrections(vcfg, inputs, data_freqs, dumps, names=None, targets=None, ctx=None):
+    """-> ({product: [input][dump] -> complex64 vector}, {product: [input][dump] -> bool vector}): the corrections the
+    SOLUTIONS call for and the positions at which only "a non-zero number" is known (there the vector holds 1).
+    targets: target index per loaded dump (self-cal type gains are interpolated per target).  With ctx the
+    derivation is cross-checked against Model/ApplycalSol.v (wire 131) for every input."""
+    from fixtures import c13cal
+    n = dumps[1] - dumps[0]
+    names = expected_products(vcfg)[2] if names is None else names
+    out, masks, cases, mine = {}, {}, [], []
+    for name in names or []:
+        stream, t = name.split('.')
+        cal = streams_of(vcfg)[stream]
+        cal_freqs = c13cal.cal_channel_freqs(cal)
+        index = {ant + pol: (p_i, a_i) for p_i, pol in enumerate(cal['pol_ordering'])
+                 for a_i, ant in enumerate(cal['antlist'])}
+        kept = sorted(_kept_events(stitched_events(cal, t), dumps).items())
+        per_input, per_mask = [], []
         for inp in inputs:
             p_i, a_i = index[inp]
-            if t == 'K':
-                per_input.append([np.ones(F, np.complex64)] * n)
-            elif t == 'G':
-                vals = list(kept.values())
-                if not vals:
-                    g = np.array([nan])
-                elif _shape_of(vals[0]) == 2:
-                    ok = [v[p_i][a_i] for v in vals if v[p_i][a_i] is not None]
-                    g = np.array([inv(ok[0]) if ok else nan])
-                else:
-                    g = []
-                    for k in range(len(vals[0])):
-                        ok = [v[k][p_i][a_i] for v in vals if v[k][p_i][a_i] is not None]
-                        g.append(inv(ok[0]) if ok else nan)
-                    g = np.array(g)
-                per_input.append([g] * n)
+            if t in GAIN_TYPES:
+                evs = [(e, [v[p_i][a_i]] if _shape_of(v) == 2 else [row[p_i][a_i] for row in v]) for e, v in kept]
+            elif t == 'K':
+                evs = [(e, v[p_i][a_i]) for e, v in kept]
             else:
-                per = []
-                for d in range(n):
-                    v = _in_force(kept, d, True)
-                    col = [v[k][p_i][a_i] for k in range(len(v))]
-                    valid = [k for k in range(len(col)) if col[k] is not None]
-                    g = np.full(F, nan)
-                    if valid:
-                        lo, hi = cal_freqs[valid[0]], cal_freqs[valid[-1]]
-                        g[(data_freqs >= lo) & (data_freqs <= hi)] = inv(col[valid[0]])
-                    per.append(g)
-                per_input.append(per)
-        out[t] = per_input
-    return out
+                evs = [(e, [v[k][p_i][a_i] for k in range(len(v))]) for e, v in kept]
+            rows = derive_input(t, evs, n, data_freqs, cal_freqs, targets, cases, mine)
+            arrs = [entries_to_arrays(r) for r in rows]
+            per_input.append([a[0] for a in arrs])
+            per_mask.append([a[1] for a in arrs])
+        out[name] = per_input
+        masks[name] = per_mask
+    if ctx is not None and ctx.model_ok and cases:
+        for k, mo in enumerate(ctx.model(cases)):
+            if mo != mine[k]:
+                ctx.disagree('route=v4;symptom=harness_corrections_differ_from_model', vcfg, mine[k], mo,
+                             'corrections derived from the solutions: harness derivation differs from '
+                             'Model/ApplycalSol.v (wire 131 op %d)' % cases[k][1][0], kind='tie')
+                break
+    return out, masks
 
 
-def check_harness_spec(ctx, vcfg, dumps_list):
+def check_harness_spec(ctx, vcfg, dumps_list, names=None):
     """The two pieces of the harness-side derivation that have a Coq counterpart are cross-checked against it:
     the stitched solution list of a multi-part product (Model/CalInterp.v `stitch`, the model proved under C14)
     and the solutions seen by a data set holding dumps [a, b) (Model/Applycal.v `seen`)."""
     if not ctx.model_ok:
         return
-    cal = vcfg['cal']
-    for name in vcfg['applycal']:
-        t = name.split('.')[1]
+    for name in (expected_products(vcfg)[2] or []) if names is None else names:
+        stream, t = name.split('.')
+        cal = streams_of(vcfg)[stream]
         st = stitched_events(cal, t)
         for a, b in dumps_list:
             mo = ctx.model([[13, [3, a, b, [[e, k] for k, (e, _) in enumerate(st)]]]])[0]
@@ -713,6 +1352,16 @@ def check_harness_spec(ctx, vcfg, dumps_list):
                 ctx.disagree('route=v4;symptom=harness_seen_differs_from_model', vcfg, mine, mo,
                              'solutions seen by dumps [%d, %d): harness derivation differs from Model/Applycal.v seen'
                              % (a, b), kind='tie')
+            if t not in GAIN_TYPES and st:
+                # the solution in force at every loaded dump (Model/ApplycalSol.v in_force o seen)
+                ids = [[e, k] for k, (e, _) in enumerate(st)]
+                mos = ctx.model([[131, [5, a, b, d, ids]] for d in range(b - a)])
+                kept = _kept_events(ids, (a, b))
+                mine_f = [([_in_force(kept, d, True)] if kept else []) for d in range(b - a)]
+                if mos != mine_f:
+                    ctx.disagree('route=v4;symptom=harness_in_force_differs_from_model', vcfg, mine_f, mos,
+                                 'solution in force at the dumps of [%d, %d): harness derivation differs from '
+                                 'Model/ApplycalSol.v in_force' % (a, b), kind='tie')
         n_parts = cal.get('parts', {}).get(t)
         if not n_parts:
             continue
@@ -721,7 +1370,7 @@ def check_harness_spec(ctx, vcfg, dumps_list):
         for p_i in range(n_pol):
             for a_i in range(n_ant):
                 def opv(v):
-                    return [] if v is None else [[q_wire(Fraction(v[0])), [0, 1]]]
+                    return [] if (v is None or isinstance(v, str)) else [[q_wire(Fraction(v[0])), [0, 1]]]
                 parts = [[[q_wire(e), [opv(row[p_i][a_i]) for row in arr]]
                           for e, arr in cal['products'].get('%s%d' % (t, q), [])] for q in range(n_parts)]
                 cases.append([14, [6, parts]])
@@ -802,17 +1451,46 @@ def _build(vcfg, arrays=None):
         import random
         random.Random(vcfg['seed']).shuffle(bls)
     ch = (tuple(vcfg['chunks'][0]), tuple(vcfg['chunks'][1]), (len(bls),))
-    x = v4.build_v4(T=T, F=F, ants=ants, seed=vcfg['seed'], bandwidth=F * vcfg['chan_w'], center_freq=vcfg['cf'],
+    tgs = [v4.TARGET_A, v4.TARGET_B, v4.TARGET_C]
+    kw = dict(targets=tuple((d, tgs[k]) for d, k in vcfg['targets'])) if vcfg.get('targets') else {}
+    if vcfg.get('acts'):
+        kw['acts'] = tuple((d, a) for d, a in vcfg['acts'])
+    applycal = vcfg['applycal'] if isinstance(vcfg['applycal'], str) else list(vcfg['applycal'])
+    x = v4.build_v4(**kw, T=T, F=F, ants=ants, seed=vcfg['seed'], bandwidth=F * vcfg['chan_w'], center_freq=vcfg['cf'],
                     bls_ordering=bls, arrays=arrays, chunks={'correlator_data': ch},
-                    telstate_hook=c13cal.cal_hook(vcfg['cal']), archived_override=['sdp_l0', 'cal'],
-                    open_kwargs=dict(applycal=list(vcfg['applycal'])), tmp=v4.scratch_dir('c13'))
+                    telstate_hook=(c13cal.hooks(c13cal.cal_hook(vcfg['cal']), c13cal.l2_hook(vcfg['cal2']))
+                                   if vcfg.get('cal2') else c13cal.cal_hook(vcfg['cal'])),
+                    archived_override=['sdp_l0', 'cal'] + ([c13cal.L2_IMAGE_STREAM] if vcfg.get('cal2') else []),
+                    construct=False, tmp=v4.scratch_dir('c13'))
+    try:
+        x.d = _open_public(x, applycal=applycal)
+    except Exception:
+        v4.cleanup(x)
+        raise
     return x, bls
 
 
-def _read_corrections(d, ptype, inputs, T):
+def _open_public(x, **kw):
+    """The public entry point named by the property: katdal.open(<capture block>/<cbid>_<stream>.rdb, applycal=...,
+    preselect=...).  The telstate of the fixture is written next to its npy chunk store (once per case)."""
+    import os
+    import katdal
+    from katsdptelstate.rdb_writer import RDBWriter
+    rdb = os.path.join(x.tmp, x.cbid, '%s_%s.rdb' % (x.cbid, x.stream))
+    if not os.path.exists(rdb):
+        ts = x.telstate
+        ts['capture_block_id'] = x.cbid
+        ts['stream_name'] = x.stream
+        os.makedirs(os.path.dirname(rdb), exist_ok=True)
+        with RDBWriter(rdb) as writer:
+            writer.save(ts)
+    return katdal.open(rdb, **kw)
+
+
+def _read_corrections(d, name, inputs, T):
     out = []
     for inp in inputs:
-        s = d.sensor.get('Calibration/Corrections/l1/%s/%s' % (ptype, inp))
+        s = d.sensor.get('Calibration/Corrections/%s/%s/%s' % (tuple(name.split('.')) + (inp,)))
         out.append([np.atleast_1d(np.asarray(s[t])).astype(np.complex64) for t in range(T)])
     return out
 
@@ -821,12 +1499,13 @@ def _prods_from(corrs, names, cal_freqs):
     """per-type correction vectors ([input][dump] -> 1-D complex64) -> the products of a direct configuration."""
     prods = []
     for name in names:
-        ptype = name.split('.')[1]
-        corr = corrs[ptype]
+        stream, ptype = name.split('.')
+        corr = corrs[name] if name in corrs else corrs[ptype]
         cn = max(len(g) for per in corr for g in per)
-        prods.append(dict(name=name, stream='l1', kb=int(ptype in 'KB'),
+        cf = cal_freqs[stream] if isinstance(cal_freqs, dict) else cal_freqs
+        prods.append(dict(name=name, stream=stream, kb=int(ptype in 'KB'),
                           own=1 if ptype in 'KB' else (0 if cn == 1 else 2), form='v4',
-                          cal_freqs=[q_wire(f) for f in cal_freqs],
+                          cal_freqs=[q_wire(f) for f in cf],
                           corr=[[[complex_to_wire(z) or None for z in g] for g in per] for per in corr]))
     return prods
 
@@ -855,22 +1534,70 @@ def _restrict(m, ix, extra=()):
     return out
 
 
-def _same_corrections(a, b):
-    """[input][dump] -> vectors: equal shapes and values (NaN == NaN)?  -> None or (input, dump, what)."""
+def _same_corrections(a, b, bmask=None):
+    """[input][dump] -> vectors: equal shapes and values (NaN == NaN)?  -> None or (input, dump, what).
+    bmask: positions of b at which only "a non-zero number" is expected."""
     for i, (pa, pb) in enumerate(zip(a, b)):
         for t, (ga, gb) in enumerate(zip(pa, pb)):
             ga, gb = np.atleast_1d(ga), np.atleast_1d(gb)
             if ga.shape != gb.shape:
                 return i, t, 'shape'
             eq = same_c(ga.astype(np.complex128), gb.astype(np.complex128))
+            if bmask is not None:
+                mk = np.atleast_1d(bmask[i][t])
+                ok = np.isfinite(ga.real) & np.isfinite(ga.imag) & (ga != 0)
+                if (mk & ~ok).any():
+                    return i, t, ('invalid_where_solution_present' if np.isnan(ga[mk & ~ok][0])
+                                  else 'zero_or_infinite_correction')
+                eq = eq | mk
             if not eq.all():
                 c = int(np.argwhere(~eq)[0][0])
                 if np.isnan(gb[c]) and not np.isnan(ga[c]):
-                    return i, t, 'finite_where_solution_missing'
+                    return i, t, ('zero_correction_where_solution_zero' if ga[c] == 0
+                                  else 'finite_where_solution_missing')
                 if np.isnan(ga[c]):
                     return i, t, 'invalid_where_solution_present'
                 return i, t, 'wrong_value'
     return None
+
+
+def _same_shapes(a, b):
+    return len(a) == len(b) and all(len(pa) == len(pb) and all(np.atleast_1d(x).shape == np.atleast_1d(y).shape
+                                                               for x, y in zip(pa, pb)) for pa, pb in zip(a, b))
+
+
+def _fill_inexact(want, masks, read):
+    """the spec needs a number at the positions where the solutions only say "a non-zero number": katdal's own."""
+    out = {}
+    for t, per_input in want.items():
+        out[t] = []
+        for i, per in enumerate(per_input):
+            row = []
+            for d, g in enumerate(per):
+                mk = masks[t][i][d]
+                if mk.any() and t in read and np.atleast_1d(read[t][i][d]).shape == g.shape:
+                    g = np.where(mk, np.atleast_1d(read[t][i][d]), g)
+                row.append(g)
+            out[t].append(row)
+    return out
+
+
+def _spec_on(ctx, cfg, want, masks, read, names, cal_freqs):
+    """model arrays of the SPEC evaluated on the corrections the solutions call for; positions whose factor depends
+    on a correction that is only known to be a non-zero number are excluded from the value comparison (their
+    flags are still compared: the factor is a number there)."""
+    filled = _fill_inexact(want, masks, read)
+    scfg = dict(cfg, prods=_prods_from(filled, names, cal_freqs))
+    ms = _model(ctx, scfg)
+    if any(mk.any() for t in masks for per in masks[t] for mk in per):
+        nanned = {t: [[np.where(masks[t][i][d], np.complex64(NANC), g) for d, g in enumerate(per)]
+                      for i, per in enumerate(per_input)] for t, per_input in filled.items()}
+        mt = _model(ctx, dict(cfg, prods=_prods_from(nanned, names, cal_freqs)))
+        tainted = np.isnan(mt['corr']) & ~np.isnan(ms['corr'])
+        ms['vis_exact'] = ms['vis_exact'] & ~tainted
+        ms['w_exact'] = ms['w_exact'] & ~tainted
+        ms['tainted'] = int(tainted.sum())
+    return scfg, ms
 
 
 def run_v4(ctx, vcfg):
@@ -882,23 +1609,40 @@ def run_v4(ctx, vcfg):
     n_parts = max([1] + list(cal.get('parts', {}).values()))
     pre = dict(vcfg.get('preselect') or {})
     shape_tag = ';parts=%d' % n_parts
+    req_names, lenient, want_names = expected_products(vcfg)
+    avail = available_products(vcfg)
+    req_kind = vcfg.get('request', 'strict')
+    # where do the requested products without solutions stand?
+    miss = [k for k, nm in enumerate(req_names) if nm not in avail]
+    have = [k for k, nm in enumerate(req_names) if nm in avail]
+    req_tag = 'request=%s;missing=%s' % (req_kind, 'none' if not miss else
+                                         ('before_present' if have and min(miss) < max(have) else 'last'))
     try:
         try:
-            x, bls = _build(vcfg)
+            try:
+                x, bls = _build(vcfg)
+            except KeyError as e:
+                if want_names is None:
+                    ctx.traces_validated += 1
+                    ctx.count('v4_strict_request_missing_product=KeyError')
+                    return
+                raise e
+            if want_names is None:
+                ctx.disagree('route=v4;obs=products;symptom=strict_request_did_not_raise', vcfg,
+                             list(x.d.applycal_products), 'KeyError',
+                             'a fully qualified request naming a product without solutions was accepted')
+                return
             d = x.d
-            raw = v4.reopen(x)
+            raw = _open_public(x)
             T, F = vcfg['T'], vcfg['F']
             inputs = sorted({i for cp in bls for i in cp})
-            cal_freqs = c13cal.cal_channel_freqs(cal)
-            read = {name.split('.')[1]: _read_corrections(d, name.split('.')[1], inputs, T)
-                    for name in d.applycal_products}
-            prods = _prods_from(read, list(d.applycal_products), cal_freqs)
-            if list(d.applycal_products) != list(vcfg['applycal']):
-                ctx.disagree('route=v4;symptom=products_dropped', vcfg, list(d.applycal_products), vcfg['applycal'],
-                             'applycal products differ from the requested ones')
-                return
+            cal_freqs = {st: c13cal.cal_channel_freqs(c) for st, c in streams_of(vcfg).items()}
+            got_names = list(d.applycal_products)
+            read = {name: _read_corrections(d, name, inputs, T) for name in got_names}
+            prods = _prods_from(read, got_names, cal_freqs)
             vis0, w0, f0 = raw.vis[:], raw.weights[:], raw.raw_flags[:]
             freqs = np.array(raw.channel_freqs)
+            targets = [int(v) for v in raw.sensor['Observation/target_index']]
             cfg = _direct_cfg(inputs, bls, freqs, prods, vcfg['chunks'], vis0, w0, f0)
             full = dict(vis=d.vis[:], weights=d.weights[:], flags=d.raw_flags[:])
             sel = dict(vcfg.get('select', {}))
@@ -919,37 +1663,77 @@ def run_v4(ctx, vcfg):
             ctx.disagree('route=v4;symptom=raises;exc=%s' % type(e).__name__ + shape_tag, vcfg, repr(e)[:300],
                          'a result', 'opening / reading a data set with applycal raised')
             return
-        # (a) tie: calc_correction + kernels + selection on the corrections katdal derived
+        # the products katdal selected against the documented expansion of the request
+        usable = {nm: [int(nm in avail)] * len(inputs) for nm in req_names}
+        has_model, msel = check_selection_model(ctx, vcfg, req_names, lenient, usable, 'v4')
+        if got_names != want_names:
+            ctx.disagree('route=v4;obs=products;symptom=%s;%s'
+                         % ('products_dropped' if set(got_names) < set(want_names) else 'wrong_products', req_tag),
+                         vcfg, got_names, want_names,
+                         'applycal=%r expands to %s of which %s have solutions: %s must be applied, katdal applies %s'
+                         % (vcfg['applycal'], req_names, sorted(avail), want_names, got_names))
+        if has_model and msel is not None and got_names != msel:
+            ctx.disagree('route=v4;obs=products;vs=model;symptom=wrong_products;%s' % req_tag, vcfg, got_names, msel,
+                         'applycal_products differ from the model of the loop over the requested products',
+                         kind='tie')
+        want, wmask = expected_corrections(vcfg, inputs, freqs, (0, T), want_names, targets, ctx)
+        # (a) tie: calc_correction + kernels + selection on the corrections katdal derived for the products it selected
+        # (positions whose factor involves a correction the solutions only determine as "a non-zero number" carry
+        # non-dyadic values: excluded from the value comparison, flags are compared)
         m = _model(ctx, cfg)
+        rmask = {t: wmask[t] for t in read if t in wmask and _same_shapes(read[t], wmask[t])}
+        if any(mk.any() for t in rmask for per in rmask[t] for mk in per):
+            nanned = {t: ([[np.where(rmask[t][i][d_], np.complex64(NANC), g) for d_, g in enumerate(per)]
+                           for i, per in enumerate(read[t])] if t in rmask else read[t]) for t in read}
+            mt = _model(ctx, dict(cfg, prods=_prods_from(nanned, got_names, cal_freqs)))
+            tainted = np.isnan(mt['corr']) & ~np.isnan(m['corr'])
+            m['vis_exact'] = m['vis_exact'] & ~tainted
+            m['w_exact'] = m['w_exact'] & ~tainted
         case = cfg_with(vcfg, cfg)
         compare(ctx, case, impl, _restrict(m, ix, [(s1, s2)]), 'v4', sides=('model',))
         if not np.array_equal(boolflags, impl['flags'] != 0):
             ctx.disagree('route=v4;obs=boolflags', vcfg, None, None, 'flags differ from raw_flags != 0')
-        # (b) property, end to end: the spec evaluated on the corrections the SOLUTIONS call for
-        check_harness_spec(ctx, vcfg, [(0, T)] + ([tuple(pre['dumps'])] if 'dumps' in pre else []))
-        want = expected_corrections(vcfg, inputs, freqs, (0, T))
-        for ptype in want:
-            bad = _same_corrections(read[ptype], want[ptype])
+        # (b) property, end to end: the spec evaluated on the corrections the SOLUTIONS call for, over the products
+        # the REQUEST calls for
+        check_harness_spec(ctx, vcfg, [(0, T)] + ([tuple(pre['dumps'])] if 'dumps' in pre else []), want_names)
+        for pname in want:
+            if pname not in read:
+                continue
+            bad = _same_corrections(read[pname], want[pname], wmask[pname])
             if bad is not None:
+                ptype = pname.split('.')[1] + (';stream=l2' if pname.startswith('l2.') else '')
                 ctx.disagree('route=v4;obs=corrections_from_solutions;type=%s;symptom=%s' % (ptype, bad[2]) + shape_tag,
-                             vcfg, dict(input=inputs[bad[0]], dump=bad[1], value=str(read[ptype][bad[0]][bad[1]])),
-                             dict(value=str(want[ptype][bad[0]][bad[1]])),
+                             vcfg, dict(input=inputs[bad[0]], dump=bad[1], value=str(read[pname][bad[0]][bad[1]])),
+                             dict(value=str(want[pname][bad[0]][bad[1]])),
                              'correction of %s for %s at dump %d differs from what the solutions call for'
-                             % (ptype, inputs[bad[0]], bad[1]))
-        scfg = dict(cfg, prods=_prods_from(want, vcfg['applycal'], cal_freqs))
-        ms = _model(ctx, scfg)
+                             % (pname, inputs[bad[0]], bad[1]))
+        scfg, ms = _spec_on(ctx, cfg, want, wmask, read, want_names, cal_freqs)
         compare(ctx, cfg_with(vcfg, scfg), impl, _restrict(ms, ix, [(s1, s2)]), 'v4', sides=('spec',),
-                spec_name='spec_from_solutions', tag=shape_tag)
+                spec_name='spec_from_solutions', tag=shape_tag + (';' + req_tag if got_names != want_names else ''))
         # (c) the result does not depend on which subset is LOADED: the same store opened with preselect
         if pre:
-            run_preselected(ctx, vcfg, x, inputs, bls, cal_freqs, freqs, (vis0, w0, f0), full, want, shape_tag)
+            run_preselected(ctx, vcfg, x, inputs, bls, cal_freqs, freqs, (vis0, w0, f0), full, (want, wmask),
+                            shape_tag, want_names, targets)
         ctx.traces_validated += 1
         ctx.note_case(cfg_key(vcfg), nontrivial=nontrivial(cfg, ms),
-                      sample=dict(route='v4', applycal=vcfg['applycal'], select=vcfg.get('select'), maps=m.get('maps'),
+                      sample=dict(route='v4', applycal=vcfg['applycal'], applied=got_names, select=vcfg.get('select'),
+                                  maps=m.get('maps'),
                                   cal_n_chans=cal['n_chans'], F=F, parts=n_parts, preselect=pre,
                                   nan_factors=int(np.isnan(ms['corr']).sum())))
         ctx.count('route=v4')
+        ctx.count('v4_' + req_tag)
+        ctx.count('v4_products_applied=%d' % len(got_names))
+        ctx.count('v4_streams=%s' % '+'.join(streams_of(vcfg)))
         ctx.count('v4_parts=%d' % n_parts)
+        ctx.count('v4_targets=%d' % len(set(targets)))
+        leaves = [leaf for key, evs in cal['products'].items() if key != 'K' for _, arr in evs
+                  for leaf in c13cal._flat(arr, 2)]
+        zero = any(leaf == [0.0, 0.0] for leaf in leaves)
+        inf = any(leaf == 'inf' for leaf in leaves) or any(
+            v == 'inf' for _, arr in cal['products'].get('K', []) for row in arr for v in row)
+        ctx.count('v4_zero_solution=%s' % zero)
+        ctx.count('v4_infinite_solution=%s' % inf)
+        ctx.count('v4_inexact_factors=%s' % bool(ms.get('tainted')))
         if n_parts > 1:
             times = [sorted(e for e, _ in cal['products'].get('B%d' % q, [])) for q in range(n_parts)]
             ctx.count('v4_parts_in_lock_step=%s' % all(t == times[0] for t in times))
@@ -962,7 +1746,8 @@ def run_v4(ctx, vcfg):
             v4.cleanup(x)
 
 
-def run_preselected(ctx, vcfg, x, inputs, bls, cal_freqs, freqs, stored, full, want_full, shape_tag):
+def run_preselected(ctx, vcfg, x, inputs, bls, cal_freqs, freqs, stored, full, want_full, shape_tag, want_names,
+                    targets):
     """Open the same store with preselect (channels and/or dumps) + applycal and compare (1) with the fully opened
     data set restricted to the same dumps and channels (the property: independent of the loaded subset) and
     (2) with the spec on the corrections the solutions call for on the loaded subset."""
@@ -973,27 +1758,47 @@ def run_preselected(ctx, vcfg, x, inputs, bls, cal_freqs, freqs, stored, full, w
     c0, c1 = pre.get('channels', [0, F])
     pk = {k: slice(*v) for k, v in pre.items()}
     what = '+'.join(sorted(pre))
+    applycal = vcfg['applycal'] if isinstance(vcfg['applycal'], str) else list(vcfg['applycal'])
     try:
-        dp = v4.reopen(x, dict(preselect=pk), dict(preselect=pk, applycal=list(vcfg['applycal'])))
+        # the target of every loaded dump as THIS data set sees it (katdal aligns target changes with scan starts,
+        # which may differ when only some dumps are loaded: an input of this property, not its subject)
+        targets_p = [int(v) for v in _open_public(x, preselect=pk).sensor['Observation/target_index']]
+        same_targets = [targets_p.index(v) for v in targets_p] == [targets[t0:t1].index(v) for v in targets[t0:t1]]
+        dp = _open_public(x, preselect=pk, applycal=applycal)
         got = dict(vis=dp.vis[:], weights=dp.weights[:], flags=dp.raw_flags[:])
         products = list(dp.applycal_products)
+        read = {name: _read_corrections(dp, name, inputs, t1 - t0) for name in products}
     except Exception as e:
         ctx.disagree('route=v4pre;pre=%s;symptom=raises;exc=%s' % (what, type(e).__name__) + shape_tag, vcfg,
                      repr(e)[:300], 'a result', 'opening / reading a preselected data set with applycal raised')
         return
-    if products != list(vcfg['applycal']):
-        ctx.disagree('route=v4pre;pre=%s;symptom=products_dropped' % what, vcfg, products, vcfg['applycal'],
-                     'applycal products of the preselected data set differ from the requested ones')
-        return
+    if products != want_names:
+        ctx.disagree('route=v4pre;pre=%s;symptom=products_dropped' % what, vcfg, products, want_names,
+                     'applycal products of the preselected data set differ from those the request calls for')
     # corrections the solutions call for when only dumps [t0, t1) are loaded; they differ from those of the whole
     # data set only for time-interpolated gains whose solutions fall outside the loaded dumps (known finding C13-F3)
-    want = expected_corrections(vcfg, inputs, freqs[c0:c1], (t0, t1))
+    want, wmask = expected_corrections(vcfg, inputs, freqs[c0:c1], (t0, t1), want_names, targets_p, ctx)
+    wf, wfm = want_full
     gain_cause = False
-    for ptype in want:
-        cut = [[(g if (len(g) != F or ptype == 'G') else g[c0:c1]) for g in per[t0:t1]] for per in want_full[ptype]]
-        if _same_corrections(want[ptype], cut) is not None:
-            gain_cause = gain_cause or ptype == 'G'
+    for pname in want:
+        ptype = pname.split('.')[1]
+        on_data = ptype not in GAIN_TYPES
+        cut = [[(g[c0:c1] if on_data else g) for g in per[t0:t1]] for per in wf[pname]]
+        cutm = [[(g[c0:c1] if on_data else g) for g in per[t0:t1]] for per in wfm[pname]]
+        same_mask = all(np.array_equal(a, b) for pa, pb in zip(wmask[pname], cutm) for a, b in zip(pa, pb)) \
+            if [len(p) for p in wmask[pname]] == [len(p) for p in cutm] else False
+        if _same_corrections(want[pname], cut) is not None or not same_mask:
+            gain_cause = gain_cause or ptype in GAIN_TYPES
+        # a gain interpolated strictly between two different solutions: the fraction depends on where the solutions
+        # outside the loaded dumps collapse to (the same finding)
+        if ptype in GAIN_TYPES and 'dumps' in pre and any(mk.any() for per in wmask[pname] + cutm for mk in per):
+            gain_cause = True
+    selfcal = any(n.split('.')[1] in ('GPHASE', 'GAMP_PHASE') for n in want_names)
+    if not same_targets:
+        ctx.count('v4pre_targets_realigned_by_preselect')
     for nm in ('vis', 'weights', 'flags'):
+        if selfcal and not same_targets:
+            break                  # per-target gains on differently partitioned dumps: not comparable dump by dump
         a, b = got[nm], full[nm][t0:t1, c0:c1]
         eq = (a.shape == b.shape) and np.all(same_c(a, b) if nm == 'vis' else a == b)
         if not eq:
@@ -1011,9 +1816,8 @@ def run_preselected(ctx, vcfg, x, inputs, bls, cal_freqs, freqs, stored, full, w
             if gain_cause:
                 break
     vis0, w0, f0 = [a[t0:t1, c0:c1] for a in stored]
-    pcfg = _direct_cfg(inputs, bls, freqs[c0:c1], _prods_from(want, vcfg['applycal'], cal_freqs),
-                       [[t1 - t0], [c1 - c0]], vis0, w0, f0)
-    mp = _model(ctx, pcfg)
+    pcfg0 = _direct_cfg(inputs, bls, freqs[c0:c1], [], [[t1 - t0], [c1 - c0]], vis0, w0, f0)
+    pcfg, mp = _spec_on(ctx, pcfg0, want, wmask, read, want_names, cal_freqs)
     compare(ctx, cfg_with(vcfg, pcfg), got, mp, 'v4pre', sides=('spec',), spec_name='spec_from_solutions',
             tag=';pre=%s' % what + shape_tag)
     ctx.traces_validated += 1
@@ -1083,7 +1887,7 @@ def run_invert(ctx, vcfg):
             pk = {k: slice(*v) for k, v in pre.items()}
             what = '+'.join(sorted(pre))
             try:
-                dp = v4.reopen(x, dict(preselect=pk), dict(preselect=pk, applycal=list(vcfg['applycal'])))
+                dp = _open_public(x, preselect=pk, applycal=list(vcfg['applycal']))
                 gotp = dp.vis[:].astype(np.complex128)
                 prods_ok = list(dp.applycal_products) == list(vcfg['applycal'])
             except Exception as e:
@@ -1116,7 +1920,9 @@ def run_invert(ctx, vcfg):
 
 
 def run_case(ctx, cfg):
-    if cfg.get('route') == 'direct':
+    if cfg.get('route') == 'sol':
+        run_sol(ctx, cfg)
+    elif cfg.get('route') == 'direct':
         mo = ctx.model([model_case(cfg)])[0] if ctx.model_ok else None
         if mo == [-999]:
             ctx.disagree('route=direct;symptom=model_rejects_case', cfg, None, mo, 'wire format error', kind='tie')
@@ -1139,9 +1945,14 @@ def run(ctx):
             ctx.disagree('route=direct;symptom=model_rejects_case', cfg, None, mo, 'wire format error', kind='tie')
             continue
         run_direct(ctx, cfg, mo)
-    for k in range(ctx.scale(40, 500)):
-        # a third of the cases with a multi-part B product, a third reopened with a channel (+ dumps) preselection
-        force = [dict(parts=True), dict(pre=['channels', 'both'][k // 3 % 2]), None][k % 3]
+    for _ in range(ctx.scale(150, 3000)):
+        run_sol(ctx, gen_sol(random.Random(ctx.rng.getrandbits(48)), ctx.tier))
+    for k in range(ctx.scale(48, 600)):
+        # a sixth of the cases each: a multi-part B product; reopened with a channel (+ dumps) preselection; zero
+        # solutions in every product; a lenient request by bare types with a missing type before a present one;
+        # 'all' / 'default' / the stream with some product types missing; free
+        force = [dict(parts=True), dict(pre=['channels', 'both'][k // 6 % 2]), dict(zero=True),
+                 dict(request='types', l2=k // 6 % 2), dict(request='group', l2=1 - k // 6 % 2), None][k % 6]
         run_v4(ctx, gen_v4(random.Random(ctx.rng.getrandbits(48)), ctx.tier, force))
     for _ in range(ctx.scale(12, 120)):
         run_v4(ctx, gen_invert(random.Random(ctx.rng.getrandbits(48)), ctx.tier))
